@@ -28,13 +28,20 @@ def record_xspec(kvs):
     except BaseException as e:  # noqa: BLE001
         return {"k": "xspec", "kvs": mkvs, "text": cps(text), "real": ["exc", type(e).__name__]}
     attrs = [[cps(k), ["true"] if v is True else ["str", cps(v)]] for k, v in sp.__dict__.items() if k not in ("_spec", "env")]
-    env = [[cps(k), ["true"] if v is True else ["str", cps(v)]] for k, v in sp.env.items()]
+    env = [[cps(k), ["true"] if v is True else ["str", cps(v)]] for k, v in (sp.env.items() if isinstance(sp.env, dict) else [("<env is not a dict>", repr(sp.env))])]
     try:
         other = XSpec(text + "x//zz9")
     except Exception:  # noqa: BLE001
         other = XSpec("zz9")
-    flags = [str(sp) == text, sp == XSpec(text) and not (sp != XSpec(text)), hash(sp) == hash(XSpec(text)),
-             getattr(sp, "surely_absent_name") is None, sp != other and not (sp == other)]
+    def safe(f):
+        # parsing the same text a second time must work like the first time: a failure there is a result, not a harness error
+        try:
+            return bool(f())
+        except Exception:  # noqa: BLE001
+            return False
+
+    flags = [str(sp) == text, safe(lambda: sp == XSpec(text) and not (sp != XSpec(text))), safe(lambda: hash(sp) == hash(XSpec(text))),
+             safe(lambda: getattr(sp, "surely_absent_name") is None), safe(lambda: sp != other and not (sp == other))]
     # attribute access agrees with the parsed pairs
     for k, v in kvs:
         if not k.startswith("env:") and k != "env" and k and not k.startswith("_") and "=" not in k and "//" not in k:
